@@ -97,12 +97,14 @@ func c09PartCase(r *Run, gx, wx, ncu int, fails string) {
 	}
 }
 
-// c09OversizeCase: a kernel whose work-groups fit no CU even when the CU is empty (Lean: `Fits` is false,
-// `oversize_group_waits_forever`), launched next to a kernel that fits, on the real command
-// processor with CUs of the given shape. Expected by the model: the second kernel completes, the
-// oversize one is never mapped, never answered and never rejected; every later tick reports no
-// progress (the ticking component goes to sleep and nothing ever wakes it). The real code does the
-// same: reported as the finding C09.oversize.silent-wait.
+// c09OversizeCase: a kernel whose work-groups fit no CU even when the CU is empty (Lean: `Fits` is false
+// for every CU of the pool), launched after a kernel that fits was served, on the real command
+// processor with CUs of the given shape. Expected (repair 91eb1bb3, Lean `oversize_launch_is_rejected_at_once`,
+// `oversize_group_is_rejected`): the tick in which a dispatcher takes the oversize launch panics at once
+// ("cannot dispatch kernel": `fault:oversize`); nothing of it is mapped and no response is sent. The
+// pinned code neither mapped nor rejected it — every later tick reported no progress and the launch
+// never returned (Lean `oversize_group_waits_forever_before_fix`); if that is ever observed again it is
+// reported as C09.oversize.silent-wait, so that reverting the repair is caught.
 func c09OversizeCase(r *Run, sh c09Shape, nCU int, big [5]int, why string) {
 	e := &c09Env{r: r, rng: NewRng(1), model: true, byReq: map[string]int{}, cuRoom: c09PortCap, drvRoom: c09PortCap}
 	var shapeStr []string
@@ -122,30 +124,39 @@ func c09OversizeCase(r *Run, sh c09Shape, nCU int, big [5]int, why string) {
 	e.cp.ToCUs.AcceptHook(e)
 	e.cp.ToDriver.AcceptHook(e)
 	e.drv = sim.NewPort(nil, 1, 1, "Driver.ToGPU")
-	e.launch(big[0], big[1], big[2], big[3], big[4]) // kernel 0: does not fit
-	e.launch(128, 64, 16, 4, 256)                    // kernel 1: fits
+	e.launch(128, 64, 16, 4, 256) // kernel 0: fits, served to the end
 	e.doTicks(4)
 	for len(e.outst) > 0 {
 		e.done([]int{0})
 	}
 	e.doTicks(6)
-	late := e.doTicks(300)
+	e.launch(big[0], big[1], big[2], big[3], big[4]) // kernel 1: fits no CU
+	e.doTicks(1)                                     // the tick that takes it: fault:oversize
+	rejected := e.dead && strings.Contains(e.fault, "cannot_dispatch_kernel")
+	late := e.doTicks(300) // X once rejected
 	e.doProbe()
 	r.Checked("oversize")
 	r.Count("c09.oversize." + why)
 	r.Case(e.caseString(), strings.Join(e.outs, " "))
 	l0, l1 := e.launches[0], e.launches[1]
-	if !l0.stuckOK {
+	if l1.fits0 || !l1.stuckOK {
 		r.Failf("C09.oversize.harness", e.caseString(), "the harness considers the work-group placeable")
 		return
 	}
-	if l1.rsps != 1 {
-		r.Failf("C09.oversize.blocks-others", e.caseString(), "the kernel that fits was not answered next to an oversize kernel (%d of %d groups mapped)", len(l1.mapped), l1.numWG)
+	if l0.rsps != 1 {
+		r.Failf("C09.oversize.blocks-others", e.caseString(), "the kernel that fits was not answered before the oversize kernel was launched (%d of %d groups mapped)", len(l0.mapped), l0.numWG)
 	}
-	if !e.dead && len(l0.mapped) == 0 && l0.rsps == 0 && late == 0 {
+	switch {
+	case rejected && len(l1.mapped) == 0 && l1.rsps == 0:
+		r.Count("c09.oversize.rejected-at-once")
+	case !e.dead && len(l1.mapped) == 0 && l1.rsps == 0 && late == 0:
 		r.Failf("C09.oversize.silent-wait", e.caseString(),
 			"%s: a work-group of %d work-items with %d SGPRs, %d VGPRs, %d LDS bytes fits no empty CU (%s); the dispatcher neither maps nor rejects it: 300 further ticks report no progress, no response, no error — the launch never returns",
 			why, big[1], big[2], big[3], big[4], sh.String())
+	default:
+		r.Failf("C09.oversize.not-rejected", e.caseString(),
+			"%s: a work-group of %d work-items with %d SGPRs, %d VGPRs, %d LDS bytes fits no empty CU (%s) but the tick that takes the launch did not reject it cleanly: dead=%v fault=%q mapped=%d responses=%d",
+			why, big[1], big[2], big[3], big[4], sh.String(), e.dead, e.fault, len(l1.mapped), l1.rsps)
 	}
 }
 
